@@ -74,6 +74,12 @@ Sixth round (Gen/Fit.v extended: the whole curve fitter; Gen/Clip.v; the tables 
     return None (RET_DECL), an `if` some of whose paths return and some fall through, followed by more code, joined through
     `inl <result> | inr <the variables it assigns>` instead of duplicating the continuation (JOIN_EARLY).
 Everything outside these shapes is Untranslatable, as before.
+
+Seventh round (Gen/Lookup.v; the tables and comments marked `round 7` below) -- the sampled lookup CubicBezier.tOfPoint:
+  * `float("inf")` (no other string) as the initial value of a local variable: `Ops` has no infinity, so the variable is an `option T`
+    ('XS': None = +infinity, Some x = the float x); only `e < it` / `it > e` (ltb_xinf) and `it = e` are translated on it (ROUND7);
+    the `for` over the outcome of regularSampleTValue and the `while precision > 1e-5` loop need nothing new (fold_loop / stmt_while).
+Everything outside these shapes is Untranslatable, as before.
 """
 import ast, sys, os, hashlib, json
 from fractions import Fraction
@@ -122,16 +128,17 @@ FILE_OF = {'Point': 'Point', 'Line': 'Line', 'QuadraticBezier': 'Quad', 'CubicBe
            'Node': 'Nodelist', 'SegmentRepresentation': 'Nodelist', 'linesweep': 'Sweep',
            'MinimumCurveDistanceFinder': 'MinDist'}
 FILE_ORDER = ['Utils', 'Point', 'Affine', 'BBox', 'Line', 'Quad', 'Cubic', 'Shapes', 'Fit', 'CurveDist', 'Sample', 'Nodelist', 'Sweep', 'Split',
-              'CurveCurve', 'MinDist', 'Winding', 'PathOps', 'Clip']
+              'CurveCurve', 'MinDist', 'Winding', 'PathOps', 'Clip', 'Lookup']
 # leaves of the import graph: no other generated file imports them (so adding one leaves the text of the others unchanged)
-LEAF_FILES = {'Shapes', 'Fit', 'Sample', 'Nodelist', 'Sweep', 'Split', 'CurveCurve', 'MinDist', 'Winding', 'PathOps', 'Clip'}
+LEAF_FILES = {'Shapes', 'Fit', 'Sample', 'Nodelist', 'Sweep', 'Split', 'CurveCurve', 'MinDist', 'Winding', 'PathOps', 'Clip', 'Lookup'}
 # ... except for the ones named here (the types `outcome` / `pyexc` and the list helpers live in the prelude of Gen/Sample.v)
 EXTRA_DEPS = {'Nodelist': ['Sample'], 'Sweep': ['Sample', 'Nodelist'], 'CurveCurve': ['Sample', 'Split'], 'MinDist': ['Sample'],
               'Winding': ['Sample', 'Nodelist', 'Split', 'CurveCurve'],
               'PathOps': ['Sample', 'Nodelist', 'Split', 'CurveCurve', 'MinDist'],
               # round 6: the fitter uses `outcome` (Sample), py_index_Z / the slices by a Z (Nodelist), range_Z / fold_option_outcome (MinDist)
               'Fit': ['Sample', 'Nodelist', 'MinDist'],
-              'Clip': ['Sample', 'Nodelist', 'Split', 'CurveCurve', 'MinDist', 'Winding', 'PathOps']}
+              'Clip': ['Sample', 'Nodelist', 'Split', 'CurveCurve', 'MinDist', 'Winding', 'PathOps'],
+              'Lookup': ['Sample']}      # round 7
 # methods emitted into another file than the one of the receiver's class (keyed by the DEFINING class)
 FILE_OF_DEFCLASS = {'SampleMixin': 'Sample', 'BooleanOperationsMixin': 'PathOps'}
 # ... or keyed by the method name (the flatteners call the sampling methods, so they live with them)
@@ -144,7 +151,8 @@ FILE_OF_CLASS_METHOD = {('BezierPath', 'bounds'): 'Winding',
                         ('BezierPath', 'flatten'): 'PathOps', ('BezierPath', 'distanceToPath'): 'PathOps', ('BezierPath', 'signed_area'): 'PathOps',
                         ('BezierPath', 'area'): 'PathOps', ('BezierPath', 'direction'): 'PathOps',
                         ('BezierPath', 'fromPoints'): 'Fit',      # round 6: the fitter's entry point on a path
-                        ('BezierPath', 'clip'): 'Clip', ('BezierPath', 'union'): 'Clip', ('BezierPath', 'intersection'): 'Clip', ('BezierPath', 'difference'): 'Clip'}
+                        ('BezierPath', 'clip'): 'Clip', ('BezierPath', 'union'): 'Clip', ('BezierPath', 'intersection'): 'Clip', ('BezierPath', 'difference'): 'Clip',
+                        ('CubicBezier', 'tOfPoint'): 'Lookup'}      # round 7: it calls regularSampleTValue (Gen/Sample.v)
 # modules whose module-level constants are emitted as named definitions (elsewhere they are inlined at the use)
 NAMED_GLOBAL_MODULES = {'path/geometricshapes.py'}
 MODULE_OF_CLASS = {'Point': 'point.py', 'Line': 'line.py', 'QuadraticBezier': 'quadraticbezier.py',
@@ -310,9 +318,17 @@ JOIN_EARLY = {('CurveFit', '_fitCurve')}
 CLIP_FUNS = {('BezierPath', n) for n in ('clip', 'union', 'intersection', 'difference')}
 PYCLIPPER_CT = {'CT_INTERSECTION': 'Ct_intersection', 'CT_UNION': 'Ct_union', 'CT_DIFFERENCE': 'Ct_difference', 'CT_XOR': 'Ct_xor'}
 ROUND6 = CHECKED | CLIP_FUNS      # functions in which the idioms of this round are recognised
+# ---- round 7: the sampled lookup CubicBezier.tOfPoint (Gen/Lookup.v) ------------------------------------------------------------------------
+# 'XS': a local float variable initialised with float("inf") -- `Ops` has no infinity (the carrier R has none) -- as `option T`, None = +infinity,
+#   Some x = the float x.  The ONLY operation translated on such a value is standing on the greater side of a strict comparison, `e < it` /
+#   `it > e` (ltb_xinf of the prelude of Gen/Lookup.v: for None, "e < +infinity", i.e. e is neither NaN nor +infinity), and being replaced by
+#   a float (`it = e`: Some e); with these the representation is equivalent to the float (Some +infinity and None behave alike).  Any other
+#   use -- arithmetic, another comparison, passing it on, returning it -- is Untranslatable.
+ROUND7 = {('CubicBezier', 'tOfPoint')}
 # the element type of a list that starts as `[]` and is filled in a loop, where the inference from the first `.append(<e>)` does not reach
 # (e depends on variables bound in the loop body): DECLARED here; Coq checks the claim when the definition is compiled
 ACC_TYPES = {(('BezierPath', 'clip'), 'newpath'): ('L', 'SEG')}
+def mentions_xs(t): return t == 'XS' or (isinstance(t, tuple) and any(mentions_xs(x) for x in t))
 def obj_type(cls, abs_texts): return ('OBJ', cls, tuple(abs_texts))
 def obj_state_type(cls): return ('T', tuple(t for _, t in OBJECTS[cls]['state'])) if len(OBJECTS[cls]['state']) > 1 else OBJECTS[cls]['state'][0][1]
 def abs_coqty(a):
@@ -362,6 +378,7 @@ def coqty(t):
     if t == 'UNIT': return 'unit'
     if t == 'STR': return 'K'
     if t == 'CT': return 'clip_type'      # round 6
+    if t == 'XS': return 'option (T)'     # round 7: a float that started as float("inf"): None = +infinity (see ROUND7)
     if isinstance(t, tuple):
         if t[0] == 'RNG' and t[1] in ('seg3', 'seg4'): return f'ranged ({coqty(t[1])}) T'
         if t[0] == 'OBJ': return coqty(obj_state_type(t[1]))
@@ -556,6 +573,8 @@ EFFECTS = {
     # of rSamples[-1] / p[0], the conversion of a coordinate, ClipperException
     ('BezierPath', 'clip'): {'fuel', 'exc'}, ('BezierPath', 'union'): {'fuel', 'exc'}, ('BezierPath', 'intersection'): {'fuel', 'exc'},
     ('BezierPath', 'difference'): {'fuel', 'exc'},
+    # round 7 -- the sampling loops of regularSampleTValue and IndexError of its rSamples[-1]; the `while precision > 1e-5` refinement loop
+    ('CubicBezier', 'tOfPoint'): {'fuel', 'exc'},
 }
 # 'EDGE': a Line together with its `_orig` attribute, `(seg2 T * option (segment T))`: Some c when `line._orig = c` has been
 # executed on it, None for a Line that was never tagged (reading the attribute would be an AttributeError; nothing reads it).
@@ -1094,6 +1113,7 @@ class Translator:
         text = self.text(body)
         rty = self.rtype(body) if not (body.ty == 'K' and body.const is None) else None
         if rty is None: raise Untranslatable(f'{cls}.{name} returns None')
+        if mentions_xs(rty): raise Untranslatable(f'{cls}.{name}: a float that started as float("inf") is part of the result {rty!r}')      # round 7
         if eff:
             if is_mtype(rty) is None or is_mtype(rty)[0] != set(teff(eff)): raise Untranslatable(f'{cls}.{name}: result {rty!r} does not carry the declared effects {sorted(eff)}')
             if fx.pending: raise Untranslatable(f'{cls}.{name}: unflushed effects')
@@ -1799,6 +1819,11 @@ class FunTx:
             t = {'Lt': f'(ltb O {x} {y})', 'LtE': f'(leb O {x} {y})', 'Gt': f'(ltb O {y} {x})', 'GtE': f'(leb O {y} {x})',
                  'Eq': f'(eqb O {x} {y})', 'NotEq': f'(neqb O {x} {y})'}.get(op)
             if t: return Val('B', t)
+        if 'XS' in (a.ty, b.ty):
+            # round 7: the only thing done with a float that may be +infinity: <float> < it (it > <float>)
+            if op == 'Lt' and b.ty == 'XS' and a.ty in ('S', 'I'): return Val('B', f'(ltb_xinf O {tr.S(a)} {b.tx})')
+            if op == 'Gt' and a.ty == 'XS' and b.ty in ('S', 'I'): return Val('B', f'(ltb_xinf O {tr.S(b)} {a.tx})')
+            self.fail(f'compare {op} on {a.ty!r},{b.ty!r} (a float that started as float("inf") may only stand on the greater side of < / >)', n)
         if a.ty == 'SHAPE' and b.ty == 'SHAPE' and op in ('Eq', 'NotEq', 'Is', 'IsNot'):
             # two of the objects handed to the sweep: identity (see 'SHAPE')
             t = f'(shape_eqb {a.tx} {b.tx})'
@@ -1864,6 +1889,8 @@ class FunTx:
             return ('[]', '[]', ('L', '?'))
         ta, tb = tr.rtype(a), tr.rtype(b)
         if tmatch(ta, tb) is not None: return (tr.text(a), tr.text(b), tmatch(ta, tb))
+        if {ta, tb} == {'XS', 'S'}:      # round 7: a finite float where the other branch keeps a float that may be +infinity
+            return (tr.text(a) if ta == 'XS' else f'(Some {tr.S(a)})', tr.text(b) if tb == 'XS' else f'(Some {tr.S(b)})', 'XS')
         for x, y in ((ta, tb), (tb, ta)):
             if isinstance(x, tuple) and x[0] == 'O' and x[1] == y:
                 return (tr.text(a) if ta == x else f'(Some ({tr.text(a)}))', tr.text(b) if tb == x else f'(Some ({tr.text(b)}))', x)
@@ -2748,6 +2775,10 @@ class FunTx:
                 except decimal.InvalidOperation: self.fail(f'Decimal({args[0].const!r})', n)
             if name == 'float':
                 a = args[0]
+                if a.ty == 'K' and isinstance(a.const, str):
+                    # round 7: float("inf"), and no other string
+                    if self.key in ROUND7 and a.const == 'inf' and len(args) == 1 and not kwargs: return Val('XS', 'None')
+                    self.fail(f'float({a.const!r})', n)
                 return Val('S', tr.S(a))
             if name == 'int' and len(n.args) == 1 and isinstance(n.args[0], ast.Call) and isinstance(n.args[0].func, ast.Attribute) and n.args[0].func.attr == 'copysign' \
                     and isinstance(n.args[0].func.value, ast.Name) and n.args[0].func.value.id == 'math' and 'math' not in env and len(n.args[0].args) == 2 \
@@ -5625,6 +5656,9 @@ TARGETS += FIT6_TARGETS
 CLIP_TARGETS = [(c, '__eq__', (('ty', t),)) for c in ('Line', 'QuadraticBezier', 'CubicBezier') for t in ('seg2', 'seg3', 'seg4')] + \
                [('BezierPath', n) for n in ('clip', 'union', 'intersection', 'difference')]
 TARGETS += CLIP_TARGETS
+# round 7: the sampled lookup of a parameter on a cubic (Gen/Lookup.v)
+LOOKUP_TARGETS = [('CubicBezier', 'tOfPoint')]
+TARGETS += LOOKUP_TARGETS
 
 # fixed text at the top of a generated file: the types and list helpers the effectful definitions are written with
 PRELUDE = {'Sample': '''(* A function with a data-dependent `while` loop takes [fuel : nat] -- the number of iterations EVERY loop invocation may
@@ -5864,6 +5898,17 @@ PRELUDE['PathOps'] = '''(* path/__init__.py: BezierPath.flatten / distanceToPath
    every arm lifted to the union of the effects of the arms.  An Intersection is kept together with both its segments:
    [(segment T * segment T * (T * pt T * T))] (seg1, seg2, (t1, point, t2)), the definitions suffixed _ixss below.  A local variable
    that may still be unbound when it is read is an option; reading it then is [Raises PyUnboundLocalError]. *)
+
+'''
+PRELUDE['Lookup'] = '''(* round 7 -- cubicbezier.py: CubicBezier.tOfPoint (the sampled lookup of a parameter).  The running minimum `bestDist` starts as
+   float("inf"); `Ops` has no infinity (the carrier R has none), so a variable initialised with float("inf") is an [option T]: None = +infinity,
+   Some x = the float x.  The only operations on it are [ltb_xinf] -- `e < bestDist` -- and being replaced by a float (Some e): for these the
+   option is equivalent to the float (Some +infinity and None behave alike).  "e < +infinity" holds iff e is neither NaN nor +infinity; on R: always. *)
+Definition ltb_xinf {T : Type} (O : Ops T) (x : T) (y : option T) : bool :=
+  match y with
+  | Some b => ltb O x b
+  | None => eqb O x x && negb (isinf_ O x && ltb O (ofZ O 0) x)
+  end.
 
 '''
 
